@@ -10,16 +10,17 @@ package main
 // Command-level clauses run the real obigrep / obiannotate binaries on the dump directory.
 
 import (
-	"reflect"
 	"bufio"
 	"bytes"
 	"encoding/json"
 	"fmt"
+	"hash/fnv"
 	"math"
 	"math/rand"
 	"os"
 	"os/exec"
 	"path/filepath"
+	"reflect"
 	"sort"
 	"strconv"
 	"strings"
@@ -692,7 +693,26 @@ func askCmd(bindir, dumpdir string, q *query, tag string) {
 		}
 	case "cmd_atrank":
 		bin = "obiannotate"
-		args = []string{"-t", dumpdir, "--with-taxon-at-rank", q.K[0]}
+		// the rank asked for among other requested ranks, before and after it (higher and lower ones): the
+		// annotation of a rank depends on the sequence's taxon and on that rank only
+		args = []string{"-t", dumpdir}
+		h := fnv.New32a()
+		h.Write([]byte(tag + q.K[0]))
+		x := int(h.Sum32() % 997)
+		others := []string{}
+		for _, r := range c14Ranks {
+			if r != q.K[0] {
+				others = append(others, r)
+			}
+		}
+		nb, na := x%3, (x/3)%3
+		for i := 0; i < nb && len(others) > 0; i++ {
+			args = append(args, "--with-taxon-at-rank", others[(x+i*5)%len(others)])
+		}
+		args = append(args, "--with-taxon-at-rank", q.K[0])
+		for i := 0; i < na && len(others) > 0; i++ {
+			args = append(args, "--with-taxon-at-rank", others[(x/7+i*3)%len(others)])
+		}
 	case "cmd_lca":
 		bin = "obiannotate"
 		args = []string{"-t", dumpdir, "--add-lca-in", "lca"}
@@ -1293,7 +1313,7 @@ func anyId(rng *rand.Rand, d *taxDef, unknownToo bool) int {
 	case x < 15 && len(d.Alias) > 0:
 		return d.Alias[rng.Intn(len(d.Alias))][0]
 	case x < 25 && unknownToo:
-		return []int{0, -3, n + 1000 + rng.Intn(50), 4 * n + 77}[rng.Intn(4)]
+		return []int{0, -3, n + 1000 + rng.Intn(50), 4*n + 77}[rng.Intn(4)]
 	case x < 35:
 		return d.rootTaxid()
 	default:
